@@ -235,6 +235,48 @@ fn pairs() -> Vec<Case> {
     out
 }
 
+/// the same body as ONE WebSocket frame: executed once each, in order (state = the one-by-one reference run)
+pub fn run_ws_case(srv: &Server, ws_port: u16, case: &Case) -> Outcome {
+    let n = srv.counter.get();
+    srv.counter.set(n + 1);
+    let pid = std::process::id();
+    let (db_ws, db_twin) = (format!("w{}x{}", pid, n), format!("v{}x{}", pid, n));
+    let (new_ws, new_twin) = (format!("nw{}x{}", pid, n), format!("nv{}x{}", pid, n));
+    prepare_db(srv, &db_ws);
+    prepare_db(srv, &db_twin);
+    let mut twin = Session::new();
+    for c in case.cmds.iter() {
+        let line = render(c, &db_twin, &new_twin);
+        twin.send(&srv.node, line.trim());
+    }
+    let _ = twin.disconnect(&srv.node);
+    // the WebSocket server does not trim statements: no decorations, single ';'
+    let body: Vec<String> = case.cmds.iter().map(|c| render(c, &db_ws, &new_ws)).collect();
+    let mut out = Outcome::ok(case.cmds.len() >= 2);
+    if let Err(e) = transport::ws_exchange(ws_port, vec![transport::Frame::Text(body.join(";"))], 250) {
+        out.fail = Some(("C20|ws-io".to_string(), e));
+        return out;
+    }
+    let mut ok = false;
+    let (mut dh, mut dt) = (db_dump(&srv.node, &db_ws), db_dump(&srv.node, &db_twin));
+    for _ in 0..200 {
+        dh = db_dump(&srv.node, &db_ws);
+        dt = db_dump(&srv.node, &db_twin);
+        let conn = srv.node.dump().get(&db_ws).and_then(|m| m.get("$connections")).map(|v| v.0.clone()).unwrap_or_else(|| "0".to_string());
+        if dh == dt && conn == "0" {
+            ok = true;
+            break;
+        }
+        transport::real_sleep(std::time::Duration::from_millis(5));
+    }
+    if !ok {
+        out.fail = Some(("C20|ws-frame|state-differs-or-connection-not-released".to_string(), format!("frame {:?}: websocket run {:?}, one-by-one reference {:?}", body.join(";"), dh, dt)));
+    } else if srv.node.dbs.has_db(&new_ws) != srv.node.dbs.has_db(&new_twin) {
+        out.fail = Some(("C20|ws-frame|create-db-differs".to_string(), format!("frame {:?}", body.join(";"))));
+    }
+    out
+}
+
 pub fn run(ctx: &Ctx, rep: &mut Report) {
     let srv = start_server(ctx);
     let n = ctx.amount(24_000, 400_000);
@@ -242,9 +284,18 @@ pub fn run(ctx: &Ctx, rep: &mut Report) {
     if rep.failures.is_empty() {
         enumerate(ctx, rep, "all-bodies-of-1-and-2-commands", pairs().into_iter(), |c| run_case(&srv, c));
     }
+    if rep.failures.is_empty() {
+        let ws_port = transport::start_ws(srv.node.dbs.clone());
+        let n = ctx.amount(320, 6000);
+        explore(ctx, rep, "websocket-frames", n, case_strategy(), |c| run_ws_case(&srv, ws_port, c));
+    }
 }
 
-pub fn replay(ctx: &Ctx, _engine: &str, case: &J) -> Result<Option<(String, String)>, String> {
+pub fn replay(ctx: &Ctx, engine: &str, case: &J) -> Result<Option<(String, String)>, String> {
     let srv = start_server(ctx);
+    if engine == "websocket-frames" {
+        let ws_port = transport::start_ws(srv.node.dbs.clone());
+        return replay_guarded::<Case>(ctx, case, |c| run_ws_case(&srv, ws_port, c));
+    }
     replay_guarded::<Case>(ctx, case, |c| run_case(&srv, c))
 }
